@@ -36,9 +36,10 @@ KQuickConfigs ==
    [alpha |-> {"a", "t", "n"},      n |-> 6, ks |-> {2, 3}],
    [alpha |-> {"c", "u", "r"},      n |-> 5, ks |-> {2, 3, 4}]}
 KThoroughConfigs ==
-  {[alpha |-> {"a", "c", "g", "t"}, n |-> 8, ks |-> {2, 3, 4, 5, 6}],
-   [alpha |-> {"a", "t", "n"},      n |-> 9, ks |-> {2, 3, 4}],
-   [alpha |-> {"a", "c", "g", "u", "y"}, n |-> 6, ks |-> {2, 3, 4, 5}]}
+  {[alpha |-> {"a", "c", "g", "t"}, n |-> 8, ks |-> {2, 3}],
+   [alpha |-> {"a", "c", "g", "t"}, n |-> 7, ks |-> {4, 5, 6}],
+   [alpha |-> {"a", "t", "n"},      n |-> 8, ks |-> {2, 3, 4}],
+   [alpha |-> {"a", "c", "g", "u", "y"}, n |-> 5, ks |-> {2, 3, 4, 5}]}
 
 KSeqsUpTo(S, n) == UNION {[1..m -> S] : m \in 0..n}
 
